@@ -224,9 +224,11 @@ def step (st : St) (op impl : String) : St × StepOut :=
     match m.toNat? with
     | some m =>
       if st.dropped then (st, { model := "closed" }) else
+      -- (publishing never blocks / is never delayed by subscribers) the synchronous `send` returned
+      -- while every forwarding task / the port task was gated, without running any converter
       ({ st with s2 := st.s2.step (.op (.publish m)), s1 := st.s1.step (.op (.publish m)),
                  pubs := st.pubs ++ [m], dirty := true },
-       { model := "ok" })
+       { model := "ok", oracle := if impl == "ok" then [] else ["publish-ran-subscriber-code"] })
     | none => (st, { model := "bad-op" })
   | ["sub", key, actor, kind] =>
     match key.toNat?, actor.toNat?, convOf kind with
@@ -248,6 +250,14 @@ def step (st : St) (op impl : String) : St × StepOut :=
     | some a =>
       ({ st with s2 := st.s2.step (.op (.exit a)), s1 := st.s1.step (.op (.exit a)), stopped := a :: st.stopped },
        { model := "ok" })
+    | none => (st, { model := "bad-op" })
+  | ["drain", actor] =>
+    -- `drain()`: the actor refuses messages from now on (like a stopped one); a held actor
+    -- stays `Draining` until it is released, the others are gone after the settle
+    match actor.toNat? with
+    | some a =>
+      ({ st with s2 := st.s2.step (.op (.exit a)), s1 := st.s1.step (.op (.exit a)), stopped := a :: st.stopped },
+       { model := if st.heldActors.contains a then "Draining" else "ok", nontrivial := st.heldActors.contains a })
     | none => (st, { model := "bad-op" })
   | ["drop"] =>
     ({ st with s2 := st.s2.step .drop, s1 := st.s1.step .drop, dropped := true },
